@@ -216,6 +216,13 @@ func (r *Recorder) PublishedAt(id channel.ID, v uint64) (time.Duration, bool) {
 	return 0, false
 }
 
+// CreatedList returns a copy of the IDs of the channels created so far.
+func (r *Recorder) CreatedList() []channel.ID {
+	r.mu.Lock()
+	defer r.mu.Unlock()
+	return append([]channel.ID{}, r.Created...)
+}
+
 // EnabledOf returns the Enabled stream of one channel.
 func (r *Recorder) EnabledOf(id channel.ID) []EnabledRec {
 	r.mu.Lock()
